@@ -41,6 +41,8 @@ pub struct Config {
     pub lane_in_buf: usize,
     pub lane_out_buf: usize,
     pub jitter_per_mille: u64,
+    /// Jitter applied to the agent implementation's own task (independent of the runtime's).
+    pub agent_jitter_per_mille: u64,
     pub keys: i32,
 }
 
@@ -109,6 +111,7 @@ impl<'a> Gen<'a> {
             lane_in_buf: *rng.pick(&[32usize, 64, 256, 4096]),
             lane_out_buf: *rng.pick(&[32usize, 64, 256, 4096]),
             jitter_per_mille: *rng.pick(&[0u64, 0, 100, 300, 600]),
+            agent_jitter_per_mille: *rng.pick(&[0u64, 0, 200, 500]),
             keys: rng.range(2, 5) as i32,
         }
     }
